@@ -165,7 +165,7 @@ struct alignas(64) CallerRec {
 struct OnceScen {
     uint64_t seed = 0; long uid = 0;
     int ncallers = 0, throw_mask = 0, throw_site = 0, fn_spin = 0, nested_n = 0, nested_spin = 0, throw_iter = 0;
-    bool hot = false, delete_by_last = false, same_arena = false;
+    bool hot = false, delete_by_last = false, classX = false; int placement = 0;
     std::vector<DriverSpec> drivers;
     std::unique_ptr<CallerRec[]> callers;       // ncallers + 1 (the last one is main's final call)
     std::atomic<tbb::collaborative_once_flag*> flag{nullptr};
@@ -177,7 +177,8 @@ struct OnceScen {
     OnceScen() { for (auto& a : attempt_runner) a.store(-1, RLX); for (auto& a : attempt_threw) a.store(0, RLX); }
     long expected_payload() const { return uid * 7919 + 13; }
     std::string describe(bool outcome) const {
-        Json j; j.obj(); j.kv("class", "once"); j.kv("scn_seed", (unsigned long long)seed); j.kv("callers", ncallers); j.kv("throw_mask_first4_attempts", throw_mask);
+        static const char* pl_name[] = { "any (no throw planned)", "all callers direct", "all callers inside one arena", "spread over an arena and outside it (class X)" };
+        Json j; j.obj(); j.kv("class", classX ? "onceX" : "once"); j.kv("placement", pl_name[placement]); j.kv("scn_seed", (unsigned long long)seed); j.kv("callers", ncallers); j.kv("throw_mask_first4_attempts", throw_mask);
         j.kv("throw_site", throw_site == 0 ? "before nested work" : throw_site == 1 ? "inside nested parallel_for body" : "after nested work");
         j.kv("function_spin", fn_spin); j.kv("nested_parallel_for", nested_n); j.kv("hot_arenas", hot); j.kv("flag_deleted_by_last_caller", delete_by_last);
         j.key("drivers").arr();
@@ -195,7 +196,7 @@ struct OnceScen {
             }
             j.end_arr();
         }
-        j.kv("replay", "c19 --mode once --scn " + std::to_string(seed) + " --cases 2000");
+        j.kv("replay", std::string("c19 --mode ") + (classX ? "oncex" : "once") + " --scn " + std::to_string(seed) + " --cases 2000");
         j.end_obj(); return j.s;
     }
 };
@@ -300,32 +301,46 @@ static void once_driver(OnceScen& s, int di, Barrier& bar) {
     }
 }
 
-static void gen_once(OnceScen& s, Rng& r, int cpus) {
+static int leading_throws(int mask) { int n = 0; while (n < 4 && (mask >> n & 1)) n++; return n; }
+// Placement of the callers. A throwing attempt makes a second thread win while the first winner may still be spinning in its
+// runner's destructor *inside its arena slot*, waiting for a helper that holds the lifetime guard and is parked at the entrance
+// of that (full) arena: a known defect (class X, own processes). The strict classes cannot reach it: without a throw there is one
+// winner only; with throws all callers are either direct (16-slot implicit arenas) or inside one and the same arena (helpers enter inline).
+enum Placement { PL_ANY, PL_ALL_DIRECT, PL_SAME_ARENA, PL_SPREAD };
+static void gen_once(OnceScen& s, Rng& r, int cpus, bool classX) {
     unsigned x = (unsigned)r.below(100);
     s.ncallers = x < 25 ? 2 : x < 45 ? 3 : x < 60 ? 4 : x < 90 ? 5 + (int)r.below(4) : 9 + (int)r.below(4);
-    s.throw_mask = r.chance(2, 5) ? 0 : (int)r.below(16);
+    s.throw_mask = r.chance(35, 100) ? 0 : ((int)r.below(16) | (r.chance(1, 2) ? 1 : 0));
+    if (classX) { s.throw_mask |= 1; if (s.ncallers < 4) s.ncallers = 4 + (int)r.below(5); }
+    s.classX = classX;
     s.throw_site = (int)r.below(3);
     unsigned k = (unsigned)r.below(100);
-    s.fn_spin = k < 30 ? 0 : k < 70 ? (int)r.below(2000) : k < 95 ? 2000 + (int)r.below(30000) : 100000 + (int)r.below(200000);
-    if (s.fn_spin >= 100000) s.fn_spin = 40000;
+    s.fn_spin = k < 30 ? 0 : k < 70 ? (int)r.below(2000) : k < 95 ? 2000 + (int)r.below(30000) : 40000;
     s.nested_n = r.chance(1, 2) ? 0 : 2 + (int)r.below(r.chance(1, 2) ? 8 : 63);
     s.nested_spin = (int)r.below(r.chance(1, 3) ? 3000 : 200);
     s.throw_iter = s.nested_n ? (int)r.below(s.nested_n) : 0;
     s.hot = r.chance(7, 10);
     s.delete_by_last = r.chance(7, 10);
-    s.same_arena = r.chance(1, 2);
+    int pl = classX ? PL_SPREAD : leading_throws(s.throw_mask) == 0 ? PL_ANY : r.chance(2, 5) ? PL_ALL_DIRECT : PL_SAME_ARENA;
+    s.placement = pl;
+    bool same_arena = pl == PL_SAME_ARENA || (pl == PL_ANY && r.chance(1, 2));
     int shared_arena = (int)r.below(g_arenas.size());
+    if (pl == PL_SPREAD) shared_arena = (int)r.pick(std::vector<int>{ 1, 1, 2, 3, 6, 6, 7 });      // small arenas
     s.callers.reset(new CallerRec[s.ncallers + 1]);
     int left = s.ncallers, first = 0;
     while (left > 0) {
         DriverSpec d{}; d.first = first;
-        bool last_slot = s.drivers.size() == 7;
+        bool last_slot = s.drivers.size() == 11;
         unsigned y = (unsigned)r.below(100);
         d.kind = y < 30 ? D_DIRECT : y < 50 ? D_EXEC : y < 85 ? D_EXECPF : D_ENQ;
-        d.arena = s.same_arena ? shared_arena : (int)r.below(g_arenas.size());
+        if (pl == PL_ALL_DIRECT) d.kind = D_DIRECT;
+        if (pl == PL_SAME_ARENA && d.kind == D_DIRECT) d.kind = D_EXECPF;
+        if (pl == PL_SPREAD) { if (s.drivers.empty()) d.kind = D_EXECPF; else if (s.drivers.size() == 1) d.kind = D_DIRECT; }
+        d.arena = same_arena || (pl == PL_SPREAD && r.chance(3, 4)) ? shared_arena : (int)r.below(g_arenas.size());
         if (d.kind == D_ENQ && g_arenas[d.arena].conc < 2) d.kind = D_EXECPF;
         d.k = (d.kind == D_EXECPF || d.kind == D_ENQ) ? 1 + (int)r.below(std::min(left, 4)) : 1;
-        if (last_slot) { d.k = left; if (d.kind == D_DIRECT || d.kind == D_EXEC) d.kind = D_EXECPF; }
+        if (pl == PL_SPREAD && s.drivers.empty()) d.k = std::min(left - 1, 2 + (int)r.below(3));
+        if (last_slot) { d.k = left; if (d.kind == D_EXEC) d.kind = D_EXECPF; }
         s.drivers.push_back(d); left -= d.k; first += d.k;
     }
     bool lowcpu = cpus > 0 && cpus <= 2;
@@ -653,7 +668,7 @@ int main(int argc, char** argv) {
             // neither the function nor the callers ever wait for anything but oneTBB; a harness-made delay in progress means "not yet"
             int inside = 0; for (int i = 0; i <= os->ncallers; i++) if (os->callers[i].state.load() == 1) inside++;
             scen = os->describe(true);
-            if (inside > 0 && os->in_user_delay.load() == 0) key = "c19.once.hang";
+            if (inside > 0 && os->in_user_delay.load() == 0) key = os->classX ? "c19.onceX.hang" : "c19.once.hang";
             d = "callers inside collaborative_call_once: " + std::to_string(inside) + ", invocations running: " + std::to_string(os->running.load()) + ", completions: " + std::to_string(os->completions.load()) + "; " + d;
         } else if (es) {
             long in_local = 0;
@@ -672,14 +687,14 @@ int main(int argc, char** argv) {
         uint64_t sseed = fixed_scn ? (uint64_t)fixed_scn : top.next() >> 1;
         Rng r(sseed);
         unsigned pickm = (unsigned)r.below(100);
-        std::string cls = mode == "once" || mode == "ets" || mode == "etsw" ? mode : (pickm < 50 ? "once" : pickm < 85 ? "ets" : "etsw");
+        std::string cls = mode == "once" || mode == "oncex" || mode == "ets" || mode == "etsw" ? mode : (pickm < 50 ? "once" : pickm < 85 ? "ets" : "etsw");
         uid++;
         ev_reset();
         std::string scen_json; bool nontrivial = false; uint64_t sig = 0;
 
-        if (cls == "once") {
+        if (cls == "once" || cls == "oncex") {
             OnceScen s; s.seed = sseed; s.uid = uid + (long)(R.seed << 20);
-            gen_once(s, r, cpus);
+            gen_once(s, r, cpus, cls == "oncex");
             s.flag.store(new tbb::collaborative_once_flag);
             int nd = (int)s.drivers.size();
             s.drivers_left.store(nd);
@@ -726,7 +741,7 @@ int main(int argc, char** argv) {
             if (comp == 1 && A != firstok + 1) fail("c19.once.attempt-accounting", "the function completed but ran " + std::to_string(A) + " times; the throw plan needs exactly " + std::to_string(firstok + 1));
             if ((anyok || final_call) && comp != 1 && g_fails.load() == 0) fail("c19.once.returned-before-completion", "a caller returned normally but completions = " + std::to_string(comp));
             R.scenarios++;
-            R.stat("once_scenarios"); R.stat("once_callers", s.ncallers); R.stat("once_attempts", A); R.stat("once_throws", nthrew); R.stat("once_exceptions_caught", total_caught);
+            R.stat(s.classX ? "onceX_scenarios" : "once_scenarios"); R.stat(std::string("once_placement_") + (s.placement == PL_ANY ? "any_nothrow" : s.placement == PL_ALL_DIRECT ? "all_direct" : s.placement == PL_SAME_ARENA ? "same_arena" : "spread_classX")); R.stat("once_callers", s.ncallers); R.stat("once_attempts", A); R.stat("once_throws", nthrew); R.stat("once_exceptions_caught", total_caught);
             R.stat("once_retry_rounds_after_throw", std::max(0, A - 1)); R.stat("once_callers_gave_up", gave_up); R.stat("once_helper_refs_on_running_runner", helper_refs);
             R.stat("once_assists", assists); R.stat("once_callers_overlapping", overl); R.stat("once_helper_callers_ran_nested_work", nested_helpers);
             R.stat("once_nested_bodies_on_helper_callers", s.helper_bodies.load()); R.stat("once_nested_bodies_on_plain_workers", s.worker_bodies.load());
